@@ -118,6 +118,25 @@ def _run_slice(args):
 CHUNK = 25000
 
 
+PREFILL = 70
+
+
+def _prefillable(o):
+    """Every third behaviour that sets AllowSplitEntries gets PREFILL filler dimension sets directly behind that call
+    (harness/src/emf.rs from_abstract_prefilled). Dimension sets are independent in EmfFormat.tla: the verdict and the
+    records of the behaviour are what the model says without the fillers, as long as the presence of split records
+    does not change whether the global record is needed - so only behaviours that are rejected or have a split record
+    of their own, with and without validation."""
+    if o["id"] % 3 or o.get("fault") or not any(c["op"] == "CFG" and c["arg"] == "split" for c in o["calls"]):
+        return False
+    first = next(i for i, c in enumerate(o["calls"]) if c["op"] == "CFG" and c["arg"] == "split")
+    # entry dimensions configured once a dimension set exists are an error of their own (ed_late in EmfFormat.tla): the
+    # fillers would create that situation, so behaviours that configure entry dimensions behind the split call stay as they are
+    if any(c["op"] == "CFG" and c["arg"] not in ("split", "unroutable") for c in o["calls"][first + 1:]):
+        return False
+    return all((not e["accept"]) or any(r["kind"] == "split" for r in e["records"]) for e in (o["on"], o["off"]))
+
+
 def _chunks(path, name, seed, seen, counter):
     """behaviours of one slice in chunks, deduplicated across slices, with id and concretisation variant"""
     chunk = []
@@ -133,6 +152,8 @@ def _chunks(path, name, seed, seen, counter):
             counter[0] += 1
             # concretisation variant: 0 = plain symbols, otherwise nasty strings / extreme numbers
             o["v"] = (seed * 7919 + o["id"] * 31) % 977
+            if _prefillable(o):
+                o["prefill"] = PREFILL
             chunk.append(o)
             if len(chunk) >= CHUNK:
                 yield chunk
@@ -155,6 +176,8 @@ def drive(chk, beh, release, tag, reuse=False):
     with open(bp, "w") as f:
         for b in beh:
             row = {"id": b["id"], "v": b["v"], "cfg": b["cfg"], "calls": b["calls"]}
+            if b.get("prefill"):
+                row["prefill"] = b["prefill"]
             if b.get("fault"):
                 row["fault"] = b["fault"]
             f.write(json.dumps(row) + "\n")
@@ -340,6 +363,11 @@ def content_diff(b, o, exp, parse):
     e = expected_records(b, o, exp)
     lines = parse["lines"]
     diffs = []
+    if b.get("prefill"):
+        own = [l for l in lines if not any(str(m["name"]).startswith("zzfill") for m in l["members"])]
+        if len(lines) - len(own) != b["prefill"]:
+            return [{"filler_records_expected": b["prefill"], "filler_records_real": len(lines) - len(own)}]
+        lines = own
     if len(lines) != len(e["records"]):
         return [{"records_expected": len(e["records"]), "records_real": len(lines)}]
     reals = [real_record(l) for l in lines]
